@@ -18,7 +18,7 @@
 (* depth-aware: an element that does not fit forces the empty list);       *)
 (* Dev = {"list-assumed-nonempty"} is what the implementation does today.  *)
 (***************************************************************************)
-EXTENDS GEMeta
+EXTENDS GESynthesisRules
 
 CONSTANTS Grammars,      \* set of declared grammars explored
           Deciders,      \* subset of {"grow", "full", "pigrow"}
@@ -39,22 +39,11 @@ FormDist(g, f) == FormMinV(f, Reported(g), Dev)
 Rem(c)       == maxd - c
 
 \* ---- what a decider may choose for an abstract symbol / a union at context depth c ----------
+\* (the rules themselves live in GESynthesisRules, parameterised by the distance function, so that the
+\*  decision-level trace specification Trace_Derive can apply them to the implementation's distances)
 Fits(g, f, c)   == FormDist(g, f) <= Rem(c)
-SymF(s)         == [k |-> "sym", s |-> s, es |-> <<>>, mh |-> [k |-> "none"]]
-GrowSet(g, alts, c) == {a \in alts : Fits(g, a, c)}
 IsRecForm(g, f) == f.k = "sym" /\ Recursive(g, f.s)
-FullSet(g, alts, c) ==
-    LET pref == {a \in alts : (IsRecForm(g, a) /\ FormDist(g, a) < Rem(c)) \/ FormDist(g, a) = Rem(c) - 1}
-    IN IF c <= maxd /\ pref # {} THEN pref ELSE GrowSet(g, alts, c)
-\* PI-grow keeps a flag ("still expanding towards the maximum depth"); both of its modes are allowed here
-PiSets(g, alts, c) ==
-    LET rec == {a \in alts : IsRecForm(g, a) /\ FormDist(g, a) < Rem(c)}
-    IN {GrowSet(g, alts, c)} \cup (IF rec # {} THEN {rec} ELSE {})
-Choices(g, d, alts, c) ==
-    CASE d = "grow"   -> GrowSet(g, alts, c)
-      [] d = "full"   -> FullSet(g, alts, c)
-      [] d = "pigrow" -> UNION PiSets(g, alts, c)
-      [] OTHER -> {}
+Choices(g, d, alts, c) == ChoicesD(LAMBDA f : FormDist(g, f), LAMBDA f : IsRecForm(g, f), d, alts, c, maxd)
 
 ElemForm(f) == IF f.k = "ann" THEN f.es[1].es[1] ELSE f.es[1]
 Holes(f, n, c) == [i \in 1..n |-> Hole(f, c)]
